@@ -17,6 +17,7 @@ limitations under the License.
 package main
 
 import (
+	"sort"
 	"strings"
 
 	"github.com/gogo/protobuf/protoc-gen-gogo/generator"
@@ -96,6 +97,11 @@ func BuildMessage(plugin *Plugin, desc *generator.Descriptor, isRoot bool, path 
 		if !known {
 			oneOfNames = append(oneOfNames, f.OneOfName)
 		}
+	}
+
+	// Sort oneofs if required: their declaration order follows the order of the fields in the proto file
+	if c.config.Sort {
+		sort.Strings(oneOfNames)
 	}
 
 	message := &Message{
